@@ -72,7 +72,12 @@ pub fn streams() -> Vec<(&'static str, Vec<u8>, Vec<u8>)> {
     let mut resp5 = h2::settings(&[]);
     resp5.extend(h2::headers_frames(1, &b, &Framing { splits: cuts, ..Default::default() }));
     resp5.extend(h2::frame(0, 1, 1, b"body"));
-    vec![("http1", req1, resp1), ("http2", req2, resp2), ("http1-lf-head-crlf-blank-lines-in-body", req3, resp3), ("http1-crlf-head-lf-blank-lines-in-body", req4, resp4), ("http2-continuation", req5, resp5)]
+    // bodies that are not text (JPEG magic, lone continuation bytes, 0xff): the head must be found wherever the body bytes land
+    let mut req6 = b"POST /upload HTTP/1.1\r\nHost: bin.example\r\nUser-Agent: curl/8.0\r\nContent-Type: image/jpeg\r\nContent-Length: 12\r\n\r\n".to_vec();
+    req6.extend([0xff, 0xd8, 0xff, 0xe0, 0x00, 0x10, 0x80, 0xbf, 0xc3, 0x28, 0xfe, 0xff]);
+    let mut resp6 = b"HTTP/1.1 200 OK\r\nServer: nginx/1.2.3\r\nContent-Type: application/octet-stream\r\n\r\n".to_vec();
+    resp6.extend([0x1f, 0x8b, 0x08, 0x00, 0xff, 0xfe, 0x80, 0x00, 0xc0, 0xaf]);
+    vec![("http1", req1, resp1), ("http2", req2, resp2), ("http1-lf-head-crlf-blank-lines-in-body", req3, resp3), ("http1-crlf-head-lf-blank-lines-in-body", req4, resp4), ("http2-continuation", req5, resp5), ("http1-binary-bodies", req6, resp6)]
 }
 /// number of bytes of the direction's stream that must be contiguous from the start for the head to be complete
 fn head_len(stream: usize, client: bool, bytes: &[u8]) -> usize {
@@ -342,7 +347,7 @@ pub fn run(thorough: bool) -> Outcome {
     });
     Outcome {
         report: pre.merge(rep),
-        rule: "HTTP/1 (CRLF heads; bare-LF heads whose bodies contain CRLF blank lines; CRLF heads whose bodies contain LF blank lines) and HTTP/2 (single HEADERS frame; HEADERS + CONTINUATION frames) exchanges after SYN/SYN+ACK, reference = each direction cut exactly behind its head: every 1-, 2- and 3-partition (3-partitions on a stride in quick) of each direction x 9 initial sequence numbers (0, 1, 2^31, 2^31-10, 2^32-1, 2^32-2, 2^32-len, 2^32-len/2, 0x12345678) x every arrival permutation; both directions in two pieces each in all 24 interleavings (with and without wrap); four request pieces in all 24 orders; distinct = distinct per-packet report patterns".into(),
+        rule: "HTTP/1 (CRLF heads; bare-LF heads whose bodies contain CRLF blank lines; CRLF heads whose bodies contain LF blank lines; bodies that are not UTF-8) and HTTP/2 (single HEADERS frame; HEADERS + CONTINUATION frames) exchanges after SYN/SYN+ACK, reference = each direction cut exactly behind its head: every 1-, 2- and 3-partition (3-partitions on a stride in quick) of each direction x 9 initial sequence numbers (0, 1, 2^31, 2^31-10, 2^32-1, 2^32-2, 2^32-len, 2^32-len/2, 0x12345678) x every arrival permutation; both directions in two pieces each in all 24 interleavings (with and without wrap); four request pieces in all 24 orders; distinct = distinct per-packet report patterns".into(),
         exhaustive: true,
         bounds: json!({"histories": hs.len(), "streams": ss.iter().map(|s| (s.0, s.1.len(), s.2.len())).collect::<Vec<_>>()}),
     }
